@@ -381,6 +381,10 @@ where
             Filter::BorrowedKeys(_, FilterMode::All, _) => {
                 unreachable!("not handled by this iterator but by FilterAllIter")
             }
+            Filter::Keys(handles, FilterMode::Any, _) => handles.contains(&key.fullhandle()),
+            Filter::BorrowedKeys(handles, FilterMode::Any, _) => {
+                handles.contains(&key.fullhandle())
+            }
             _ => unreachable!("Filter {:?} not implemented for FilteredKeys", self.filter),
         }
     }
